@@ -5,10 +5,15 @@
   used: `rfl`, or induction over the loops), that each regenerated definition is the hand-written model function of
   `TaurexModel/Emission.lean` that the C02 theorems are about and that `driver_c02` executes.
   A source change that alters one of these functions makes the corresponding theorem fail to check.
+  Besides the intensity, `evaluate_emission` is tied for its fourth component, the contribution function `tau` that
+  `path_integral` / `model()` hand to the user (`src_evaluate_emission_tau`, `src_path_integral_tau`), and the
+  orchestration of `partial_model` is tied through the `dyn` dialect (`src_partial_model`: the sequence of calls on the
+  model, its star and its contributions, oracle in `Proofs/C02SrcPartial.lean`).
 -/
 import TaurexModel.Gen.SrcC02
 import TaurexModel.Emission
 import Proofs.C02SrcLemmas
+import Proofs.C02SrcPartial
 set_option linter.unusedSectionVars false
 
 namespace Taurex.C02Src
@@ -255,6 +260,121 @@ theorem src_path_integral_direct (npPi tauE pi rp dist pc : α) (is xs wts : Lis
       = direct pi (fluxOf npPi is xs wts) rp dist pc :=
   src_path_integral npPi tauE is xs wts _ h1 h2
 
+/-- **`EmissionModel.evaluate_emission`** (cross-section branch), component `tau` of the returned tuple — the CONTRIBUTION
+    FUNCTION that `path_integral` and `model()` hand on to the user —, for all wavenumbers at once: entry `[l, j]` is the
+    model's `contribFn` (`contribOf` of the row of layer `l` in column `j`): `exp(-layer_tau) - exp(-dtau)` with each term
+    dropped (`0.0`) when its optical depth is ≥ `self._clamp = 10` at EVERY wavenumber (`x.min() < self._clamp`), added to the
+    zeroed table.  The code's `if isinstance(_tau, float): tau[layer] += _tau else: tau[layer] += _tau[0]` (both terms
+    dropped: a Python float; otherwise an array of shape `(1, nw)`) has ONE translation for both branches.  The statements
+    that only feed the intensity are sliced away.  Instantiations as in `src_evaluate_emission`; the black-body constants do
+    not enter (`k` arbitrary).  Generic in the carrier. -/
+theorem src_evaluate_emission_tau (k : PC α) (cols : List (Col α)) (dz dens temps : List α) (nc : Nat)
+    (hsig : ∀ j, j < cols.length → (cols.getD j ⟨0, []⟩).sig.length = nc) (ktT : Nat → Nat → α) (l j : Nat)
+    (hl : l < temps.length) (hj : j < cols.length) :
+    Gen.SrcC02.evaluate_emission_tau cols.length (10 : α) (dispatch cols) (fn dz) (fn dens) ktT temps.length nc false l j
+      = (contribFn k cols dz dens temps (cols.getD j ⟨0, []⟩)).getD l 0 := by
+  have hne : cols ≠ [] := by intro h0; subst h0; exact absurd hj (Nat.not_lt_zero _)
+  have hloop : ∀ lo hi j', j' < cols.length →
+      allContrib cols dz dens nc lo hi j' = tauRange (cols.getD j' ⟨0, []⟩).sig dz dens lo hi :=
+    fun lo hi j' hj' => contrib_loop cols dz dens nc lo hi j' _ (hsig j' hj')
+  have hpair : ∀ lo1 hi1 lo2 hi2 : Nat,
+      (List.range' 0 nc).foldl (fun (st : (Nat → α) × (Nat → α)) ci =>
+        (dispatch cols ci lo1 hi1 0 0 (fn dens) st.1 (fn dz), dispatch cols ci lo2 hi2 0 0 (fn dens) st.2 (fn dz)))
+        (fun _ => (0 : α), fun _ => (0 : α))
+      = (allContrib cols dz dens nc lo1 hi1, allContrib cols dz dens nc lo2 hi2) :=
+    fun lo1 hi1 lo2 hi2 => foldl_pair (fun (b : Nat → α) ci => dispatch cols ci lo1 hi1 0 0 (fn dens) b (fn dz))
+      (fun (b : Nat → α) ci => dispatch cols ci lo2 hi2 0 0 (fn dens) b (fn dz)) _ _ _
+  have kL : ∀ l, decide (foldMin cols.length (allContrib cols dz dens nc (l + 1) temps.length) < (10 : α))
+      = keepLOf cols dz dens temps.length l := by
+    intro l
+    unfold keepLOf layerTau
+    rw [foldMin_eq_vmin cols (fun c => tauRange c.sig dz dens (l + 1) temps.length) _ ⟨0, []⟩
+      (fun j' hj' => hloop _ _ j' hj') hne]
+  have kD : ∀ l, decide (foldMin cols.length (fun r => allContrib cols dz dens nc l (l + 1) r
+      + allContrib cols dz dens nc (l + 1) temps.length r) < (10 : α)) = keepDOf cols dz dens temps.length l := by
+    intro l
+    unfold keepDOf dTau layerTau
+    rw [foldMin_eq_vmin cols (fun c => tauRange c.sig dz dens l (l + 1) + tauRange c.sig dz dens (l + 1) temps.length)
+      _ ⟨0, []⟩ (fun j' hj' => by rw [hloop _ _ j' hj', hloop _ _ j' hj']) hne]
+  let F : Nat → α := fun l' =>
+    cut (keepLOf cols dz dens temps.length l') (layerTau (cols.getD j ⟨0, []⟩).sig dz dens temps.length l')
+      - cut (keepDOf cols dz dens temps.length l') (dTau (cols.getD j ⟨0, []⟩).sig dz dens temps.length l')
+  unfold Gen.SrcC02.evaluate_emission_tau
+  simp only [Bool.false_eq_true, if_false, hpair]
+  refine (congrFun (foldl_proj_mem _ (fun (st : (Nat → α) × (Nat → α) × (Nat → Nat → α)) => fun i => st.2.2 i j)
+    (fun (tt : Nat → α) g => fun i => if i = g then tt g + F g else tt i)
+    (List.range' 0 temps.length) ?_ _) l).trans ?_
+  · intro st l' _
+    funext i
+    show (if i = l' then st.2.2 i j +
+        ((if decide (foldMin cols.length (allContrib cols dz dens nc (l' + 1) temps.length) < (10 : α)) = true
+            then (fun j' => Transc.exp (-(allContrib cols dz dens nc (l' + 1) temps.length j')))
+            else fun _ => (0 : α)) j
+        - (if decide (foldMin cols.length (fun r => allContrib cols dz dens nc l' (l' + 1) r
+              + allContrib cols dz dens nc (l' + 1) temps.length r) < (10 : α)) = true
+            then (fun j' => Transc.exp (-(allContrib cols dz dens nc l' (l' + 1) j'
+              + allContrib cols dz dens nc (l' + 1) temps.length j')))
+            else fun _ => (0 : α)) j)
+        else st.2.2 i j) = _
+    rw [ite_app, ite_app, kL, kD, hloop _ _ j hj, hloop _ _ j hj]
+    by_cases hi : i = l'
+    · subst hi; simp only [if_true]; rfl
+    · simp only [hi, if_false]
+  · rw [foldl_update_each F temps.length 0 (fun _ => (0 : α)) l]
+    have h0 : (0 ≤ l ∧ l < 0 + temps.length) := ⟨Nat.zero_le _, by omega⟩
+    rw [if_pos h0]
+    unfold contribFn rowsOf rowsWith flagsOf
+    simp only [List.map_map, List.getD_eq_getElem?_getD, List.getElem?_map, List.getElem?_range hl, Option.map_some,
+      Option.getD_some, Function.comp, contribOf]
+    rfl
+
+/-- `path_integral(...)[1]`, the second value `model()` receives, is the `tau` of `evaluate_emission`, untouched -/
+theorem src_path_integral_tau (I mu w : Nat → α) (tauE : α) : Gen.SrcC02.path_integral_tau I mu tauE w = tauE := rfl
+
 end
+
+/-! ### the orchestration of `partial_model` -/
+
+section partialModel
+open Taurex.Gen Taurex.Gen.Dyn
+variable {φ : Type} [FloatLike φ]
+
+/-- the two ways `partial_model` is called: without `wngrid` (`None`), or with one -/
+def wnArg (given : Bool) : PV φ := if given then .obj .wn else .none
+
+/-- **`EmissionModel.partial_model(wngrid, cutoff_grid)`** (dialect `dyn`, oracle `pext n`: a model with `n` contributions,
+    `Proofs/C02SrcPartial.lean`): it calls, in this order, `self.initialize_profiles()`, `self._star.initialize(grid)`,
+    `contrib.prepare(self, grid)` for every contribution in list order, and returns `self.evaluate_emission(grid, False)` —
+    the model's `partialModelSteps` —, where `grid` is `self.nativeWavenumberGrid`, clipped by
+    `clip_native_to_wngrid(native_grid, wngrid)` exactly when a `wngrid` is passed and `cutoff_grid` is true.  No call is
+    made before, between or after these (the log is exactly the list). -/
+theorem src_partial_model (n : Nat) (given cutoff : Bool) (s : List Step) :
+    Gen.SrcC02.partial_model (pext (α := φ) n) (.obj .model) (wnArg given) (.bool cutoff) s
+      = (.ok (.obj (.result (if (given && cutoff) then 1 else 0))), s ++ partialModelSteps n (given && cutoff)) := by
+  have hinit : ∀ s : List Step, (pext (α := φ) n).method .model "initialize_profiles" [] [] s
+      = (.ok .none, s ++ [Step.initProfiles]) := fun _ => rfl
+  have hgrid : ∀ s : List Step, (pext (α := φ) n).getattr .model "nativeWavenumberGrid" s = (.ok (.obj (.grid 0)), s) :=
+    fun _ => rfl
+  have hstar : ∀ s : List Step, (pext (α := φ) n).getattr .model "_star" s = (.ok (.obj .star), s) := fun _ => rfl
+  have hlist : ∀ s : List Step, (pext (α := φ) n).getattr .model "contribution_list" s
+      = (.ok (.list ((List.range n).map (fun i => .obj (.contrib i)))), s) := fun _ => rfl
+  have hsi : ∀ (g : Nat) (s : List Step), (pext (α := φ) n).method .star "initialize" [.obj (.grid g)] [] s
+      = (.ok .none, s ++ [Step.starInit g]) := fun _ _ => rfl
+  have hev : ∀ (g : Nat) (s : List Step),
+      (pext (α := φ) n).method .model "evaluate_emission" [.obj (.grid g), .bool false] [] s
+      = (.ok (.obj (.result g)), s ++ [Step.evaluate g]) := fun _ _ => rfl
+  have hclipg : ∀ s : List Step, (pext (α := φ) n).global "clip_native_to_wngrid" s = (.ok (.obj .clipFn), s) :=
+    fun _ => rfl
+  have hclip : ∀ s : List Step, (pext (α := φ) n).call .clipFn [.obj (.grid 0), .obj .wn] [] s
+      = (.ok (.obj (.grid 1)), s) := fun _ => rfl
+  unfold Gen.SrcC02.partial_model partialModelSteps
+  cases given <;> cases cutoff <;>
+    simp only [wnArg, peff_bind, peff_pure, Dyn.callMethod, Dyn.getAttr, Dyn.call, Dyn.iter, Dyn.truthy, Dyn.Val.isNone,
+      hinit, hgrid, hstar, hlist, hsi, hev, hclipg, hclip, Bool.not_true, Bool.not_false, Bool.false_eq_true,
+      if_true, if_false, Bool.and_false, Bool.and_true, Bool.and_self]
+  all_goals (
+    rw [forM_prepare n _ _ (fun i s => rfl)]
+    simp only [List.append_assoc, List.cons_append, List.nil_append])
+end partialModel
 
 end Taurex.C02Src
